@@ -239,15 +239,23 @@ def dogleg_cases(c):
     return ds
 
 
-def dogleg_ref(J, f, r):
+def mv(M, x):
+    n = len(x)
+    return [sum(M[n * i + j] * x[j] for j in range(n)) for i in range(n)]
+
+
+def tmv(M, x):
+    n = len(x)
+    return [sum(M[n * i + j] * x[i] for i in range(n)) for j in range(n)]
+
+
+def dogleg_apply(d, J, f, r):
     """independent statement of Powell's dog-leg as documented in TinyPowellDogLegAlgorithmBase.hxx (tests on the sum of
-    absolute values against N * radius, Euclidean geometry), applied to the Newton step of (J, f)"""
-    det = J[0] * J[3] - J[1] * J[2]
-    d = [-(J[3] * f[0] - J[1] * f[1]) / det, -(-J[2] * f[0] + J[0] * f[1]) / det]
+    absolute values against N * radius, Euclidean geometry) applied to a step d (N = 2)"""
     if abs(d[0]) + abs(d[1]) < 2 * r:
-        return d, "newton"
-    g = [J[0] * f[0] + J[2] * f[1], J[1] * f[0] + J[3] * f[1]]
-    Jg = [J[0] * g[0] + J[1] * g[1], J[2] * g[0] + J[3] * g[1]]
+        return list(d), "step kept"
+    g = tmv(J, f)
+    Jg = mv(J, g)
     cst = (g[0] * g[0] + g[1] * g[1]) / (Jg[0] * Jg[0] + Jg[1] * Jg[1])
     gc = [cst * g[0], cst * g[1]]
     if abs(gc[0]) + abs(gc[1]) < 2 * r:
@@ -257,6 +265,16 @@ def dogleg_ref(J, f, r):
         return [al * d[i] - (1 - al) * gc[i] for i in range(2)], "segment"
     n = math.hypot(gc[0], gc[1])
     return [-gc[i] * r / n for i in range(2)], "steepest descent"
+
+
+def newton2(J, f):
+    det = J[0] * J[3] - J[1] * J[2]
+    return [-(J[3] * f[0] - J[1] * f[1]) / det, -(-J[2] * f[0] + J[0] * f[1]) / det]
+
+
+def dogleg_ref(J, f, r):
+    """the dog-leg applied to the Newton step of (J, f)"""
+    return dogleg_apply(newton2(J, f), J, f, r)
 
 
 def parse_driver(out, nz):
@@ -392,33 +410,6 @@ KEY_PBR = "dogleg-broyden:residual"
 PIECES = ["nr1", "nr2", "nr3", "bup2", "b2up2", "bup3", "b2up3", "bco2", "b2co2", "lmstep2", "lmfirst2", "lmnext2", "dogleg2", "pnr2", "pbr2"]
 
 
-def mv(M, x):
-    n = len(x)
-    return [sum(M[n * i + j] * x[j] for j in range(n)) for i in range(n)]
-
-
-def tmv(M, x):
-    n = len(x)
-    return [sum(M[n * i + j] * x[i] for i in range(n)) for j in range(n)]
-
-
-def dogleg_apply(d, J, f, r):
-    """Powell's dog-leg as documented in TinyPowellDogLegAlgorithmBase.hxx applied to a step d (N = 2)"""
-    if abs(d[0]) + abs(d[1]) < 2 * r:
-        return list(d), "kept"
-    g = tmv(J, f)
-    Jg = mv(J, g)
-    cst = (g[0] * g[0] + g[1] * g[1]) / (Jg[0] * Jg[0] + Jg[1] * Jg[1])
-    gc = [cst * g[0], cst * g[1]]
-    if abs(gc[0]) + abs(gc[1]) < 2 * r:
-        c0, c1, c2, c3 = r * r, gc[0] ** 2 + gc[1] ** 2, -(d[0] * gc[0] + d[1] * gc[1]), d[0] ** 2 + d[1] ** 2
-        c4 = (c2 - c0) ** 2 + (c3 - c0) * (c0 - c1)
-        al = (c0 - c1) / (c2 - c1 + math.sqrt(max(c4, 0.0)))
-        return [al * d[i] - (1 - al) * gc[i] for i in range(2)], "segment"
-    n = math.hypot(gc[0], gc[1])
-    return [-gc[i] * r / n for i in range(2)], "steepest descent"
-
-
 def piece_spec(name, x, out):
     """independent statement (Python floats) of what one traced piece must satisfy; x = inputs, out = outputs of the code
     instantiated with double (None: it returned false).  Returns None or a description of the failure."""
@@ -493,8 +484,7 @@ def piece_spec(name, x, out):
             d, J, F, r = x[:2], x[2:6], x[6:8], x[8]
         else:
             J, F, r = x[:4], x[4:6], x[6]
-            det = J[0] * J[3] - J[1] * J[2]
-            d = [-(J[3] * F[0] - J[1] * F[1]) / det, -(-J[2] * F[0] + J[0] * F[1]) / det]
+            d = newton2(J, F)
         if abs(abs(d[0]) + abs(d[1]) - 2 * r) < 1e-9:
             return None
         ref, branch = dogleg_apply(d, J, F, r)
